@@ -21,8 +21,8 @@ impl Tier {
     }
 }
 
-pub const NAMES: [&str; 21] = [
-    "base", "c01", "c02", "c03", "c04", "c05", "c06", "c07", "c08", "c09", "c10", "c11", "c12",
+pub const NAMES: [&str; 22] = [
+    "c10map", "base", "c01", "c02", "c03", "c04", "c05", "c06", "c07", "c08", "c09", "c10", "c11", "c12",
     "c13", "c14", "c15", "c16", "c17", "c18", "c19", "c20",
 ];
 
@@ -123,7 +123,7 @@ pub fn base(tier: Tier) -> Profile {
         ],
         threads: vec![(1, Const(1))],
         p_cancel: 0.0,
-        p_retry_in_txn: 0.3,
+        p_retry_in_txn: 0.0,
         p_build_all: 0.3,
         p_skip_build: 0.05,
         p_rebuild: 0.1,
@@ -143,6 +143,8 @@ pub fn base(tier: Tier) -> Profile {
         full_readback: false,
         interleave: true,
         grid: None,
+        end_on_mapfull: false,
+        crash_mode: false,
     }
 }
 
@@ -249,23 +251,75 @@ pub fn profile(name: &str, tier: Tier) -> Option<Profile> {
         }
         // atomic writers, snapshot readers / crash safety: commit-heavy histories (the
         // threaded and kill-and-reopen drivers are separate scenarios)
-        "c08" | "c09" => {
-            p.default_cases = if q { 60 } else { 600 };
-            p.rounds = Range(3, 8);
+        "c08" => {
+            // the writer of the `threads` scenario: every committed version is built
+            p.default_cases = if q { 20 } else { 200 };
+            small(&mut p, tier);
+            p.n_indexes = Mix(vec![(2, Const(1)), (1, Const(2))]);
+            p.p_same_config = 0.7;
+            p.rounds = Range(10, 30);
+            p.first_items = Range(3, 24);
+            p.updates = Range(1, 10);
             p.after_round = AfterRound { keep: 0, commit: 8, abort: 2 };
             p.p_skip_build = 0.0;
+            p.p_build_all = 1.0;
+            p.p_commit_before_build = 0.0;
+            p.p_rebuild = 0.05;
+            p.p_wipe_round = 0.03;
+            p.malformed_rate = 0.0;
+            p.queries = Range(0, 1);
+            p.read_rate = 0.02;
+            p.p_wrong_w = 0.0;
+            p.mem = vec![(1, MemChoice::Unset)];
+        }
+        "c09" => {
+            // the history of a `crash` child: committed built versions, then the final
+            // transaction (updates, builds, `note committing`, commit)
+            p.default_cases = if q { 4 } else { 40 };
+            small(&mut p, tier);
+            p.crash_mode = true;
+            p.n_indexes = Mix(vec![(2, Const(1)), (1, Const(2))]);
+            p.p_same_config = 0.7;
+            p.rounds = Range(2, 4);
+            p.first_items = Range(5, 40);
+            p.updates = Range(3, 20);
+            p.after_round = AfterRound { keep: 0, commit: 1, abort: 0 };
+            p.p_skip_build = 0.0;
+            p.p_build_all = 1.0;
+            p.p_commit_before_build = 0.0;
+            p.p_rebuild = 0.0;
+            p.p_wipe_round = 0.0;
+            p.malformed_rate = 0.0;
+            p.queries = Range(0, 1);
+            p.read_rate = 0.0;
+            p.p_wrong_w = 0.0;
+            p.mem = vec![(1, MemChoice::Unset)];
+            p.later_ops.clear = 0;
         }
         // failed or cancelled builds report it and roll back
         "c10" => {
             p.default_cases = if q { 200 } else { 2000 };
             p.p_cancel = 0.7;
-            p.p_retry_in_txn = 0.5;
+            // the crate's contract: a failed or cancelled build is followed by an abort
+            // (gen.rs does it before anything else); the retry happens in a new transaction
+            p.p_retry_in_txn = 0.0;
             p.mapsize = Mix(vec![
                 (3, Const(256 * MIB)),
                 (1, OneOf(vec![32 * 1024, 64 * 1024, 96 * 1024, 128 * 1024, 192 * 1024, 256 * 1024])),
                 (1, Range(64 * 1024, 2 * MIB)),
             ]);
             p.first_items = Mix(vec![(3, Range(0, 60)), (1, Range(60, 300))]);
+        }
+        // the history of the map-size steps of `faults`: no cancellation, the first
+        // MDB_MAP_FULL ends the case
+        "c10map" => {
+            p.default_cases = if q { 3 } else { 30 };
+            p.end_on_mapfull = true;
+            p.first_items = Mix(vec![(2, Range(20, 80)), (1, Range(80, 300))]);
+            p.dims = Range(2, 16);
+            p.rounds = Range(2, 4);
+            p.p_wrong_w = 0.0;
+            p.malformed_rate = 0.0;
         }
         // distances equal the metric's definition (end to end, through QueryBuilder)
         "c11" => {
@@ -381,14 +435,30 @@ pub fn profile(name: &str, tier: Tier) -> Option<Profile> {
         }
         // on-disk format / upgrades: generic committed histories, every dump goes through
         // the reference decoder on the driver side (fixtures and upgrades are separate)
-        "c16" | "c17" => {
+        "c16" => {
             p.default_cases = if q { 100 } else { 1000 };
-            if name == "c17" {
-                p.metrics = vec![(1, Metric::Cosine)];
-            }
             p.n_indexes = Mix(vec![(2, Const(1)), (2, Const(2)), (1, Const(3))]);
             p.after_round = AfterRound { keep: 1, commit: 6, abort: 1 };
             p.p_skip_build = 0.2;
+        }
+        // the database the `upgrade` scenario downgrades: cosine only, 1-3 indexes, small
+        // buckets (single-item children on both sides), some indexes left with pending updates
+        "c17" => {
+            p.default_cases = if q { 40 } else { 500 };
+            small(&mut p, tier);
+            p.metrics = vec![(1, Metric::Cosine)];
+            p.n_indexes = Mix(vec![(1, Const(1)), (2, Const(2)), (1, Const(3))]);
+            p.first_items = Range(0, 40);
+            p.rounds = Range(1, 3);
+            p.split = vec![(1, None), (4, Some(Range(1, 3))), (1, Some(Range(4, 10)))];
+            p.ntrees = vec![(1, None), (3, Some(Range(1, 4)))];
+            p.after_round = AfterRound { keep: 1, commit: 6, abort: 1 };
+            p.p_skip_build = 0.3;
+            p.p_wrong_w = 0.0;
+            p.malformed_rate = 0.0;
+            p.queries = Range(0, 1);
+            p.read_rate = 0.0;
+            p.families = vec![(6, Family::Generic), (1, Family::Duplicates), (1, Family::Ternary)];
         }
         // changing the metric keeps the items and forces a rebuild
         "c18" => {
